@@ -15,7 +15,7 @@ import typing as T
 from harness import refninja
 from harness.core import Ctx, Evidence, Failure, HarnessError, REPO, campaign, make_scratch, pmap, shard_seeds, fp
 from harness.mesondrv import run_inproc, run_sub, write_tree
-from harness import projgen
+from harness import featproj, projgen
 
 LEVEL = 'exploration'
 RULE = ('Hypothesis project models (1-10 targets: executables, static/shared/both/default libraries, custom targets with 1-3 outputs, '
@@ -23,7 +23,13 @@ RULE = ('Hypothesis project models (1-10 targets: executables, static/shared/bot
         'layout x default_library x unity x b_staticpic; 10% carry one certain output collision or reserved name) are written to disk and '
         'configured by the real meson; build.ninja is parsed by an independent Ninja implementation. thorough: + every project under '
         'test cases/{common,unit,native,linuxlike} that configures. non-trivial = >=3 targets with >=1 cross-target edge, or a predicted '
-        'collision; distinct by hash of the model (or corpus path).')
+        'collision; distinct by hash of the model (or corpus path). In both tiers every project of the deterministic feature catalogue '
+        'harness/featproj.py (precompiled headers, Rust, Java, Fortran with dyndep and with the pre-1.10 ninja paths, C/C++ mixes, link_depends:, '
+        'objects:, extract_objects(), link_whole of a custom target, both_libraries(), generators, depfile:, vcs_tag()/configure_file(command:), '
+        'run/alias targets, subproject and sibling-directory generated headers; the seed only selects option sets) is configured in a fresh '
+        'process and judged by judge_manifest() plus reachability from all / meson-test-prereq / meson-benchmark-prereq of the outputs the project '
+        'text declares as built by default / used by tests; class feature/<entry>, non-trivial = >=3 non-phony statements with >=1 statement '
+        'consuming the output of another, distinct by hash of (entry, options).')
 ASSUMPTIONS = [
     'validity of the manifest is judged by harness/refninja.py (no ninja binary exists in the sandbox); it is self-tested on the Ninja manual examples',
     'output basenames on Linux: executable <name>, static lib<name>.a, shared lib<name>.so[.version]',
@@ -73,6 +79,10 @@ def judge_manifest(builddir: str, case: T.Any) -> T.Tuple[T.Optional[refninja.Ma
     for d in m.defaults:
         if d not in m.producer:
             return m, Failure('manifest/default-unknown', case, f'default target {d!r} has no producer')
+    try:
+        refninja.dyndep_files(m)      # a `dyndep` binding must name one of the statement's inputs (Ninja manual, "Dynamic Dependencies")
+    except refninja.NinjaError as ex:
+        return m, Failure('manifest/dyndep-not-an-input', case, f'{ex}')
     return m, None
 
 
@@ -230,6 +240,91 @@ def _gen_shard(shard: T.Tuple[int, int], ev: Evidence, fails: T.List[Failure]) -
         shutil.rmtree(work, ignore_errors=True)
 
 
+# -- catalogue of feature projects (harness/featproj.py) -------------------------
+
+def feature_nontrivial(m: refninja.Manifest) -> bool:
+    """The rule of the generated models (>=3 targets with >=1 cross-target edge) read on the manifest: at least three
+    non-phony build statements of which at least one consumes the output of another one."""
+    real = [e for e in m.edges if not e.is_phony and e.rule.name != 'REGENERATE_BUILD' and not (e.outs and e.outs[0].startswith('meson-internal__'))]
+    cross = any(pe is not None and not pe.is_phony for e in real for pe in (m.producer.get(i) for i in e.all_ins))
+    return len(real) >= 3 and cross
+
+
+def _judge_feature(case: dict, proj: 'featproj.Project', r: T.Any, bld: str) -> T.Tuple[T.Optional[refninja.Manifest], T.Optional[Failure]]:
+    if r.unhandled:
+        return None, Failure('setup/unhandled-exception', case, f'meson setup died with an internal error:\n{r.text[-1500:]}')
+    if r.rc != 0:
+        return None, Failure('setup/valid-project-rejected', case, f'a project without colliding outputs failed to configure (exit {r.rc}):\n{r.text[-1500:]}')
+    m, f = judge_manifest(bld, case)
+    if f is not None or m is None:
+        return m, f
+    by_base: T.Dict[str, T.List[str]] = {}
+    for p in m.producer:
+        by_base.setdefault(os.path.basename(p), []).append(p)
+    closures: T.Dict[str, T.Set[int]] = {}
+    for base, agg in proj.expect:
+        if agg not in closures:
+            if agg not in m.producer:
+                return m, Failure('reach/no-prereq-aggregate', case, f'{agg} is not defined')
+            closures[agg] = m.closure([agg])[0]
+        ps = by_base.get(base, [])
+        if not ps:
+            return m, Failure('manifest/target-has-no-statement', case, f'no build statement produces {base!r}')
+        missing = [p for p in ps if id(m.producer[p]) not in closures[agg]]
+        if missing:
+            if agg == 'all':
+                return m, Failure('reach/all-misses:build-target', case, f'{base!r} is built by default but {missing} is not reachable from `all`')
+            return m, Failure('reach/prereq-misses:feature', case,
+                              f'{base!r} is run by / an argument of / a depends: entry of a {"benchmark" if "benchmark" in agg else "test"} '
+                              f'but {missing} is not reachable from {agg}')
+    return m, None
+
+
+def check_feature(case: dict, workdir: str, ev: T.Optional[Evidence] = None) -> T.Optional[Failure]:
+    """One catalogue project: configured in a fresh process (authoritative, nothing to re-confirm), judge_manifest(), and
+    reachability of what the project text declares as built by default / needed by its tests."""
+    name = case['feature']
+    miss = featproj.missing_tools(case)
+    if miss:
+        if ev is not None:
+            ev.exclude(f'feature/{name}: tool not installed ({", ".join(miss)})')
+        return None
+    src = os.path.join(workdir, 'src')
+    bld = os.path.join(workdir, 'bld')
+    shutil.rmtree(workdir, ignore_errors=True)
+    os.makedirs(src)
+    try:
+        proj = featproj.build(case)
+        env = proj.write(src)
+        r = run_sub(['setup'] + proj.setup_args() + [bld, src], env=env or None, timeout=300)
+        m, f = _judge_feature(case, proj, r, bld)
+        if ev is not None:
+            ev.case(case, nontrivial=m is not None and feature_nontrivial(m), cls=f'feature/{name}',
+                    sample={'feature': name, 'opts': case.get('opts'), 'statements': len(m.edges) if m is not None else None,
+                            'expect': proj.expect})
+        if f is not None:
+            f.sig = f'{f.sig}@feature/{name}'
+            f.msg = f'catalogue project {name} {case.get("opts")}: {f.msg}'
+        return f
+    finally:
+        shutil.rmtree(workdir, ignore_errors=True)
+
+
+def _feat_shard(case: dict, ev: Evidence, fails: T.List[Failure]) -> None:
+    work = make_scratch('c04-feat')
+    try:
+        f = check_feature(case, os.path.join(work, 'case'), ev)
+        if f is not None:
+            fails.append(f)
+    finally:
+        shutil.rmtree(work, ignore_errors=True)
+
+
+def _shard(shard: T.Tuple[str, T.Any], ev: Evidence, fails: T.List[Failure]) -> None:
+    kind, payload = shard
+    (_feat_shard if kind == 'feat' else _gen_shard)(payload, ev, fails)
+
+
 # -- corpus -------------------------------------------------------------------
 
 def corpus_projects() -> T.List[str]:
@@ -353,7 +448,12 @@ def prereq_matrix(ctx: Ctx) -> None:
 def run(ctx: Ctx) -> None:
     prereq_matrix(ctx)
     per = ctx.n(50, 400)
-    pmap(ctx, _gen_shard, [(s, per) for s in shard_seeds(ctx, 16)])
+    # the catalogue of feature projects runs completely in both tiers (the seed only selects option sets); its shards
+    # share the pool with the generated-model shards
+    cs = featproj.cases(ctx.seed, ctx.tier)
+    ctx.ev.extra['catalogue_cases'] = len(cs)
+    feat = [('feat', c) for c in featproj.by_cost(cs)]
+    pmap(ctx, _shard, [('gen', (s, per)) for s in shard_seeds(ctx, 16)] + feat)
     if not ctx.quick:
         projs = corpus_projects()
         shards = [projs[i::32] for i in range(32)]
@@ -366,6 +466,8 @@ def replay(ctx: Ctx, case: T.Any, doc: dict) -> T.Optional[Failure]:
         c2 = Ctx(ctx.prop, ctx.tier, ctx.seed)
         prereq_matrix(c2)
         return next(iter(c2.failures.values()), None)
+    if isinstance(case, dict) and 'feature' in case:
+        return check_feature(case, os.path.join(ctx.scratch, 'replay'), None)
     if isinstance(case, dict) and 'corpus' in case:
         fails: T.List[Failure] = []
         _corpus_shard([os.path.join(REPO, case['corpus'])], Evidence(), fails)
